@@ -13,7 +13,7 @@ RULE = ("seeded random update/query sequences against pyrates.backend.base.base_
         "non-trivial if it has >= 20 updates and >= 10 interior queries; distinct = distinct (shape, dtype, length, "
         "seed) signature")
 DECIDING = ['queries_between', 'queries_at', 'queries_before', 'queries_after', 'growth_events', 'mutation_checks',
-            'bounded_raise_checks', 'insitu_queries', 'result_mutation_checks', 'integer_initial_state']
+            'bounded_raise_checks', 'insitu_queries', 'result_mutation_checks', 'integer_initial_state', 'refused_malformed_updates']
 ASSUMPTIONS = ['update times strictly increasing (as the property states)', 'finite values only']
 CASE_TIMEOUT = 300
 
@@ -182,6 +182,20 @@ def run_seq(case, mech):
                 break
             else:
                 return f'bounded history (max_steps={cap}) accepted update number {len(sh.t)} beyond its capacity'
+        if shape and rnd.random() < 0.02:
+            # an update that cannot be stored (state of another shape) is refused; the history must stay as it was
+            bad = np.zeros(tuple(d_ + 1 for d_ in shape), dtype=y.dtype)
+            try:
+                h.update(t, bad)
+            except Exception:
+                mech['refused_malformed_updates'] = mech.get('refused_malformed_updates', 0) + 1
+                for tq in (sh.t[0], sh.t[-1], 0.5 * (sh.t[-1] + sh.t[max(0, len(sh.t) - 2)]), sh.t[-1] + dt):
+                    kind, exp = sh.query(tq)
+                    msg = _cmp(kind, np.array(h(tq), copy=True), exp, dtype)
+                    if msg:
+                        return f'query t={tq!r} after a refused update (state of shape {bad.shape} instead of {shape}): {msg}'
+            else:
+                return f'update with a state of shape {bad.shape} was accepted by a history of shape {shape}'
         h.update(t, y)
         sh.update(t, y)
         mech['updates'] = mech.get('updates', 0) + 1
